@@ -19,6 +19,7 @@
 // Stream 2 (perturb.go): non-canonical / perturbed serializations.
 // Stream 3 (keysets.go): keysets through every writer/reader pair; 3b: handles holding an
 // unserializable key must make every writer fail.
+// Stream 5 (large.go): keysets of 64 KiB .. 1 MiB+ (binary form) through every writer/reader pair.
 // Stream 4 (bigint.go): leading-zero handling of big integers: the real helpers
 // (BigIntBytesToFixedSizeBuffer, Pad, AdjustEncodingLengths, removeLeadingZeros, the ECDSA point
 // helpers) and the big-integer fields of real EC / RSA keys vs the Lean model (`N` lines).
@@ -81,6 +82,8 @@ func main() {
 	lap("stream 3b: unserializable keys")
 	w.bigintStream(grid, hlib.NewRng(seed, "c12/bigint"))
 	lap("stream 4: big-integer helpers")
+	w.largeKeysetStream(hlib.NewRng(seed, "c12/large"))
+	lap("stream 5: large keysets")
 
 	for t, n := range keygenRefused {
 		o.Hist["keygen-refuses-valid-parameters(built-with-NewKey)/"+t] = n
